@@ -8,7 +8,7 @@
    * an edit "touches" the nodes it removes / inserts / moves (`touched`), not the node it is relative to. *)
 From Coq Require Import List Arith ZArith Bool Lia.
 From IRV Require Import Base.Exn C11.Model C11.Proofs C11.Proofs2 C11.Proofs3 C11.Proofs4 C11.Proofs5 C11.Proofs6
-  C11.ProofsR C11.ProofsR2 C11.ProofsR3 C11.Heap Gen.C11Gen C11.HeapRun C11.HeapProofs C11.HeapProofs2 C11.HeapProofs3.
+  C11.ProofsR C11.ProofsR2 C11.ProofsR3 C11.Heap Gen.C11Gen C11.HeapRun C11.HeapProofs C11.HeapProofs2 C11.HeapProofs3 C11.HeapProofs4 C11.HeapProofs5 C11.HeapProofs6.
 Import ListNotations.
 
 (* ---- well-formedness: initial state, preserved by every edit (successes and rejections alike) *)
@@ -367,27 +367,38 @@ Proof. split; [eexists; eexists; vm_compute; reflexivity|]. eexists. eexists. ee
    (statement by statement, fail-closed) into the heap monad of C11/Heap.v: boxes with prev/next/value/owning_list,
    _root, _length, the id->box dict.  `R h s` = heap h represents model state s: every live box and the root
    carry the pointers DERIVED from the live sequence (prv/nxt), every erased box its frozen pointers, _length and
-   the dict agree.
-
-   FULL STATEMENT wanted (heap refinement of every translated mutator and of both iterators):
-     forall e h s, R h s -> fst (happly e h) = snd (apply_edit e s) /\ R (snd (happly e h)) (fst (apply_edit e s))
-     forall fwd h s c, R h s -> hstep fwd h c  corresponds to  step fwd s c
-   PROVED: the instance e = Remove x, i.e. the translated DoublyLinkedSet.remove and _LinkBox.erase
-   (C11_heap_remove_refines_partial), the base case (C11_heap_R_init), and the model-level pointer laws that the
-   insertion half needs (C11_pointer_laws: how prv/nxt of every box change under erase and under insertion of
-   a fresh box).  MISSING: the symbolic evaluation of the translated _insert_one_after (five nested heap updates)
-   against those laws, its lifting to _insert_many_after/append/extend/insert_after/insert_before, and the two
-   iterator loops; these are tied on every run by evaluating the translated code inside Coq on the same schedules
-   as the hand model (HeapRun.hagree / htree_fail) against the implementation's observations. *)
+   the dict agree.  The theorems below are about the GENERATED definitions: a change of the source changes the
+   definitions and the proofs are re-checked against it (or the translator rejects it).
+   Proved: every translated mutator refines the model's edit (C11_heap_edit_refines), both translated generators
+   refine the model's cursor step (C11_heap_iter_refines), list()/reversed()/len read back the model's sequence
+   (C11_heap_observers_refine).  Not translated: __getitem__ / __contains__ / __len__'s assertion (thin hand-written
+   layer in HeapRun.v over the translated iterators). *)
 Theorem C11_heap_R_init : R empty_heap empty.
 Proof. exact R_empty. Qed.
 Print Assumptions C11_heap_R_init.
 
-Theorem C11_heap_remove_refines_partial :
-  forall h s x, R h s ->
-    fst (py_remove x h) = snd (apply_edit (Remove x) s) /\ R (snd (py_remove x h)) (fst (apply_edit (Remove x) s)).
-Proof. exact py_remove_refines. Qed.
-Print Assumptions C11_heap_remove_refines_partial.
+(* every translated mutator (append, extend, insert_after, insert_before, remove — through the translated
+   _insert_one_after, _insert_many_after, _LinkBox.__init__, _LinkBox.erase) acts on the box heap as the model's
+   edit acts on the sequence + tombstone state: same outcome (Ok / the same exception), related states *)
+Theorem C11_heap_edit_refines :
+  forall e h s, R h s ->
+    fst (happly e h) = snd (apply_edit e s) /\ R (snd (happly e h)) (fst (apply_edit e s)).
+Proof. exact happly_refines. Qed.
+Print Assumptions C11_heap_edit_refines.
+
+(* next() of the translated __iter__ / __reversed__ (start or resume, then run to the next yield or the end of
+   the while loop, with the owning_list check and the asserts) = the model's cursor step; box b of the model is
+   heap address S b.  With C11_step_law: it never raises on a heap representing a well-formed state. *)
+Theorem C11_heap_iter_refines :
+  forall fwd h s c c' y, R h s -> step fwd s c = Some (c', y) -> hstep fwd h (cmap c) = Ok (cmap c', y).
+Proof. exact hstep_refines. Qed.
+Print Assumptions C11_heap_iter_refines.
+
+Theorem C11_heap_observers_refine :
+  forall fwd h s, R h s ->
+    hlist_of fwd h = Some (dir fwd (to_list s)) /\ hlen h = Z.of_nat (length (to_list s)).
+Proof. exact hlist_of_refines. Qed.
+Print Assumptions C11_heap_observers_refine.
 
 (* translated _LinkBox.erase: raises on an erased box (heap untouched), otherwise exactly the pointer surgery *)
 Theorem C11_heap_erase_eval :
